@@ -199,6 +199,14 @@ func (x *Exec) appendGeneric(s *State, base Val, n string, et, rt types.Type, po
 	var arrs []string
 	for i, l := range leavesOf(et) {
 		na := x.eng.fresh("app.arr", arrSort(l.sort))
+		x.eng.innerTypingAxiom(na, l.typ)
+		if cnt, ok := isNumLit(base.Len); ok && cnt.IsInt64() && cnt.Int64() <= 16 {
+			for j := int64(0); j < cnt.Int64(); j++ {
+				b.assume(mkEq(mkSel(na, numI(j)), mkSel(old[i], mkAdd(base.Off, numI(j)))))
+			}
+			arrs = append(arrs, na)
+			continue
+		}
 		k := "k!a"
 		b.assume(sf("(forall ((%s Int)) (! (=> (and (<= 0 %s) (< %s %s)) (= (select %s %s) (select %s (+ %s %s)))) :pattern ((select %s %s))))",
 			k, k, k, base.Len, na, k, old[i], base.Off, k, na, k))
@@ -226,6 +234,30 @@ func (x *Exec) appendSlice(s *State, base, src Val, et, rt types.Type, pos token
 // copyRange: dst[start+i] = src[soff+i] for 0 <= i < n (memmove semantics).
 func (x *Exec) copyRange(s *State, et types.Type, dref, dstart, sref, soff, n string) {
 	key := typeKey(et)
+	// small constant length: explicit element stores (quantifier-free)
+	if cnt, ok := isNumLit(n); ok && cnt.IsInt64() && cnt.Int64() <= 16 {
+		c := cnt.Int64()
+		if c <= 0 {
+			return
+		}
+		for _, l := range leavesOf(et) {
+			name := "M$" + key + "$" + l.path
+			srt := arrSort(arrSort(l.sort))
+			cur := s.heapGet(name, srt)
+			srcArr := mkSel(cur, sref)
+			na := mkSel(cur, dref)
+			// read all source elements first (memmove semantics)
+			vals := make([]string, c)
+			for i := int64(0); i < c; i++ {
+				vals[i] = mkSel(srcArr, mkAdd(soff, numI(i)))
+			}
+			for i := int64(0); i < c; i++ {
+				na = mkSto(na, mkAdd(dstart, numI(i)), vals[i])
+			}
+			s.heapSet(name, srt, mkSto(cur, dref, na), dref)
+		}
+		return
+	}
 	for _, l := range leavesOf(et) {
 		name := "M$" + key + "$" + l.path
 		srt := arrSort(arrSort(l.sort))
